@@ -814,3 +814,30 @@ def explain_difference(a: Rat, b: Rat) -> str:
     if only_a or only_b:
         return f"sub-terms only in the code: {only_a[:4]} ; only in the reference: {only_b[:4]}"
     return f"same atoms, different polynomial: code - reference = {str(d)[:200]}"
+
+# --------------------------------------------------------------------------
+# integer-valued expressions
+# --------------------------------------------------------------------------
+# Atoms a rule has *established* to denote integers (e.g. the two values popped from a work stack
+# and used unconditionally as slice bounds: a non-integer bound raises TypeError).
+INT_ATOMS: set = set()
+_INT_FNS = {"argmax", "argmin", "int", "ceil", "floor", "len", "round"}
+
+
+def declare_integer(r: "Rat") -> None:
+    for a in r.atoms():
+        if r.den == {(): 1}:
+            INT_ATOMS.add(a.skey)
+
+
+def integer_valued(r: "Rat") -> bool:
+    """Polynomial with integer coefficients over integer-valued atoms (indices, counts, lengths)."""
+    if r.den != {(): 1}:
+        return False
+    for m, c in r.num.items():
+        if Fraction(c).denominator != 1:
+            return False
+        for at, _e in m:
+            if not ((at.kind == "fn" and at.name in _INT_FNS) or at.skey in INT_ATOMS):
+                return False
+    return True
